@@ -1575,6 +1575,18 @@ class AllConnGraph(nx.DiGraph):
         src_dist = src_meta.distributed
         has_vecs = model.has_vectors()
 
+        if not has_vecs:
+            # A value given with set_input_defaults would otherwise win again over this value when
+            # a tree with dynamically shaped inputs is resolved a second time.
+            for node in self.bfs_down_iter(src_node, include_self=False):
+                if node[0] == 'i':
+                    meta = nodes[node]['attrs']
+                    if meta.defaults.val is not None and not meta.discrete:
+                        if meta.src_inds_list:
+                            meta.defaults.val = self.get_subarray(srcval, meta.src_inds_list)
+                        else:
+                            meta.defaults.val = srcval
+
         for leaf in self.leaf_input_iter(src_node):
             tgt_meta = nodes[leaf]['attrs']
             if tgt_meta.remote:
